@@ -23,10 +23,10 @@ ASSUMPTIONS = ["members added to a class after decoration and C-implemented desc
 
 COS = [(True, False), (False, True), (True, True)]
 NAMES = ["pub", "_prot", "__priv", "__len__", "__call__", "__eq__", "__getattr__", "__repr__", "__str__", "prop", "_prot_prop",
-         "static", "classm", "__setattr__"]
+         "static", "classm", "wo_prop", "__setattr__"]
 KIND = {"pub": "function", "other_pub": "function", "_prot": "function", "__priv": "function", "__len__": "function",
         "__call__": "function", "__eq__": "function", "__getattr__": "function", "__repr__": "function", "__str__": "function",
-        "prop": "property", "_prot_prop": "property", "static": "staticmethod", "classm": "classmethod", "__setattr__": "function"}
+        "prop": "property", "_prot_prop": "property", "wo_prop": "property", "ro_prop": "property", "ro_prop_setter": "property", "static": "staticmethod", "classm": "classmethod", "__setattr__": "function"}
 REALNAME = {"__priv": "_L0__priv"}
 
 
@@ -38,11 +38,11 @@ def sel_cases():
                     for with_setattr in (False, True):
                         names = [n for n in NAMES if with_setattr or n != "__setattr__"]
                         if split == 0:
-                            levels = [{"mode": mode, "members": names, "invs": [list(a)] + ([list(b)] if b else []), "init": True}]
+                            levels = [{"mode": mode, "members": names + ["ro_prop"], "invs": [list(a)] + ([list(b)] if b else []), "init": True}]
                         else:
                             cut = 7
-                            levels = [{"mode": mode, "members": names[:cut], "invs": [list(a)], "init": True},
-                                      {"mode": mode, "members": names[cut:] + ["other_pub"],
+                            levels = [{"mode": mode, "members": names[:cut] + ["ro_prop"], "invs": [list(a)], "init": True},
+                                      {"mode": mode, "members": names[cut:] + ["other_pub", "ro_prop_setter"],
                                        "invs": ([list(b)] if b else []) if split == 1 else [], "init": False}]
                             if split == 2 and b:
                                 levels[0]["invs"].append(list(b))
@@ -108,6 +108,9 @@ def model_view(case, mo):
             ops["prop_set"] = sa_ids + sa_ids
         else:
             ops["prop_set"] = ops["prop"]
+    for n in ("wo_prop", "ro_prop_setter"):
+        if n in members and setattr_guard:
+            ops[n] = sa_ids + sa_ids
     if "__setattr__" not in members:
         ops["assign"] = (sa_assign[1] + sa_assign[1]) if sa_assign[0] == "onSetattr" else []
     return {"define": ["ok"], "ops": ops, "construct": list(range(len(case["invs"])))}
@@ -136,9 +139,10 @@ def spec(case, mo, io):
     setattr_guarded = bool(sa) and (_processed(case, "__setattr__") if "__setattr__" in members else True)
     for n, got in sorted(io["ops"].items()):
         src = "prop" if n == "prop_set" else n
-        if n == "prop_set" and setattr_guarded:
+        if n in ("prop_set", "wo_prop", "ro_prop_setter") and setattr_guarded:
             exp = sa + sa
-        elif n in ("pub", "other_pub", "__len__", "__call__", "__eq__", "__getattr__", "__str__", "prop", "prop_set"):
+        elif n in ("pub", "other_pub", "__len__", "__call__", "__eq__", "__getattr__", "__str__", "prop", "prop_set", "wo_prop",
+                   "ro_prop", "ro_prop_setter"):
             exp = (call + call) if _processed(case, src) else None
         elif n == "__setattr__":
             exp = (sa + sa) if _processed(case, n) else None
